@@ -299,6 +299,8 @@ std::string signatureFor(const Plan& p, const std::string& cls) {
     std::set<std::string> t;
     for (auto& st : p.prog.main) t.insert(classprog::tplName(st.tpl));
     bool hasDtorErr = t.count("e_dtor_err") > 0;
+    bool hasQcycle = t.count("qubit_owner_in_garbage_cycle") > 0;
+    if (hasQcycle && (cls == "swept_object_alive" || cls == "output_differs_from_gc_never" || cls == "qasm_differs" || cls == "statement_count_differs" || cls == "stderr_differs")) return "qubit_owner_in_garbage_cycle_dies_at_collection";
     std::string s = cls;
     if (hasDtorErr && (cls == "terminate" || cls.rfind("signal:6", 0) == 0 || cls == "raw_cpp_exception")) return "terminate:error_in_user_destructor";
     s += "|";
@@ -308,13 +310,15 @@ std::string signatureFor(const Plan& p, const std::string& cls) {
     return s;
 }
 
-Plan generatePlan(uint64_t seed, uint64_t run, const std::string& property, bool allowDtorErr) {
+Plan generatePlan(uint64_t seed, uint64_t run, const std::string& property, bool allowDtorErr, bool allowQcycle = false) {
     sim::Rng gen(seed, "gen", run), knob(seed, "knob", run), sch(seed, "sched", run);
     Plan p;
     bool edge = property == "C12" ? knob.chance(0.7) : knob.chance(0.15);
     // a fixed share of the batch is generated with the known-finding feature switched off
     bool dtorErr = allowDtorErr && edge && knob.chance(0.02);
-    p.prog = classprog::generate(gen, edge, dtorErr);
+    // likewise for the qubit-owner-in-a-garbage-cycle feature (known finding D19): 3 % of C11 programs
+    bool qcycle = allowQcycle && property == "C11" && knob.chance(0.03);
+    p.prog = classprog::generate(gen, edge, dtorErr, qcycle);
     gcs::Schedule& s = p.sched;
     s.generative = true;
     s.genSeed = sch.next();
@@ -327,8 +331,9 @@ Plan generatePlan(uint64_t seed, uint64_t run, const std::string& property, bool
 }
 
 // One simulated run: generate, execute, judge, shrink on violation.
+bool g_allowQcycle = false;
 void runOne(const sim::Options& opt, uint64_t run, sim::RunReport& rep, bool allowDtorErr) {
-    Plan p = generatePlan(opt.seed, run, opt.property, allowDtorErr);
+    Plan p = generatePlan(opt.seed, run, opt.property, allowDtorErr, g_allowQcycle);
     sim::Rng fault(opt.seed, "fault", run), knob2(opt.seed, "knob2", run);
     std::string src = classprog::render(p.prog);
 
@@ -531,6 +536,7 @@ int main(int argc, char** argv) {
     sim::KnownFindings kf;
     kf.load(opt.knownFile);
     bool allowDtorErr = opt.property == "C12" && kf.match("C12", "terminate:error_in_user_destructor") != nullptr;
+    g_allowQcycle = opt.property == "C11" && kf.match("C11", "qubit_owner_in_garbage_cycle_dies_at_collection") != nullptr;
 
     bool thorough = opt.tier == "thorough";
     uint64_t nRuns;
@@ -548,6 +554,8 @@ int main(int argc, char** argv) {
     sim::RunFn fn = [&](uint64_t run, sim::RunReport& rep) { runOne(opt, run, rep, allowDtorErr); };
 
     if (opt.selftestDeterminism) {
+        g_allowQcycle = false;
+        allowDtorErr = false;  // a crashing worker loses its unflushed signatures; keep crashes out of this comparison
         // same run indices twice, different worker counts: per-run signatures must agree
         sim::Options o1 = opt, o2 = opt;
         o1.workers = 1 + (int)(opt.seed % 3);
@@ -569,7 +577,7 @@ int main(int argc, char** argv) {
     for (auto& c : R.crashes) {
         std::string cls = sim::classifyCrash(c.status, c.stderrTail);
         if (cls.empty()) cls = "worker_died";
-        Plan p = generatePlan(opt.seed, c.run, opt.property, allowDtorErr);
+        Plan p = generatePlan(opt.seed, c.run, opt.property, allowDtorErr, g_allowQcycle);
         // the worker may have died in any of the executions of that run; try the variants it would have used
         std::vector<Plan> variants;
         {
